@@ -121,7 +121,6 @@ class Scratch:
                 for f in sorted(fn):
                     if f.endswith(".inc"):
                         incs.append(os.path.join(dp, f))
-            disp = []
             for inc in sorted(incs):
                 rel = os.path.relpath(inc, HARNESS_DIR)[:-4]          # e.g. deblock/src/deblock.rs
                 txt = open(inc).read()
@@ -130,12 +129,9 @@ class Scratch:
                 target = os.path.join(self.repo, rel)
                 src = open(target).read()
                 src = self.rewrite_source(rel, src)
-                with open(target, "w") as f:
-                    f.write(src + "\n" + txt)
                 modpath = self.module_path(crate, rel)
-                for m in re.finditer(r"pub\(crate\) mod (\w+)", txt):
-                    modname = m.group(1)
-                    break
+                modname = re.search(r"pub\(crate\) mod (\w+)", txt).group(1)
+                names = []
                 # harness functions: `pub fn name()` preceded by a kani::proof attribute
                 for m in re.finditer(r"kani::proof\)\]\s*(?:#\[[^\n]*\]\s*)*pub fn (\w+)\s*\(\)", txt):
                     name = m.group(1)
@@ -143,24 +139,20 @@ class Scratch:
                     if name in self.harness_index:
                         raise SystemExit("duplicate harness name " + name)
                     self.harness_index[name] = (crate, path)
-                    disp.append((name, path))
+                    names.append(name)
+                # native replay entry (a #[test] next to the harness module, so private modules are reachable)
+                entry = "\n#[cfg(all(test, verif_replay))]\nmod verif_replay_%s {\n    #[test]\n    fn entry() {\n        crate::vs::replay::run_entry(&[\n" % modname
+                for n in names:
+                    entry += "            (\"%s\", super::%s::%s as fn()),\n" % (n, modname, n)
+                entry += "        ]);\n    }\n}\n"
+                self.replay_entry = getattr(self, "replay_entry", {})
+                for n in names:
+                    self.replay_entry[n] = "%sverif_replay_%s::entry" % (modpath + "::" if modpath else "", modname)
+                with open(target, "w") as f:
+                    f.write(src + "\n" + txt + entry)
             libp = os.path.join(self.repo, lib)
             with open(libp, "a") as f:
                 f.write("\n" + support + "\n")
-                f.write("\n#[cfg(all(test, verif_replay))]\nmod verif_replay_main {\n    #[test]\n    fn verif_replay_entry() {\n")
-                f.write("        let name = std::env::var(\"VERIF_HARNESS\").expect(\"VERIF_HARNESS\");\n")
-                f.write("        let wf = std::env::var(\"VERIF_WITNESS\").expect(\"VERIF_WITNESS\");\n")
-                f.write("        let txt = std::fs::read_to_string(&wf).expect(\"witness file\");\n")
-                f.write("        let mut vals: Vec<Vec<u8>> = Vec::new();\n")
-                f.write("        for line in txt.lines() { let line = line.trim(); if line.starts_with('#') { continue; }\n")
-                f.write("            if line == \"-\" { vals.push(Vec::new()); continue; } if line.is_empty() { continue; }\n")
-                f.write("            vals.push(line.split(',').map(|s| s.trim().parse::<u8>().unwrap()).collect()); }\n")
-                f.write("        crate::vs::replay::load(vals);\n")
-                f.write("        println!(\"VERIF-REPLAY: START {}\", name);\n")
-                f.write("        match name.as_str() {\n")
-                for name, path in disp:
-                    f.write("            \"%s\" => %s(),\n" % (name, path))
-                f.write("            _ => panic!(\"unknown harness\"),\n        }\n    }\n}\n")
 
     @staticmethod
     def module_path(crate, rel):
@@ -513,7 +505,7 @@ def native_replay(scratch, crate, harness, vals, target_dir, profiles=("dev", "r
         cmd = ["cargo", "test", "--offline", "-p", CRATE_OF[crate], "--lib", "--target-dir", target_dir]
         if prof == "release":
             cmd.append("--release")
-        cmd += ["verif_replay_main::verif_replay_entry", "--", "--exact", "--nocapture", "--test-threads", "1"]
+        cmd += [scratch.replay_entry[harness], "--", "--exact", "--nocapture", "--test-threads", "1"]
         env = {"RUSTFLAGS": "--cfg verif_replay -A warnings", "VERIF_HARNESS": harness, "VERIF_WITNESS": wf}
         rc, out, to, wall = run_cmd(cmd, scratch.repo, 900, env=env, limit=False)
         started = "VERIF-REPLAY: START" in out
